@@ -26,3 +26,8 @@ func WalkAll(mr metadata.Reader) (list []string, files []uint32, shared bool) {
 	w.walk(mr.RootID())
 	return w.list, w.files, w.shared
 }
+
+func RawBlob(raw []byte) []byte                   { return rawBlob(raw) }
+func JSONCorpus(kind string) []Case               { return jsonCorpus(kind) }
+func GenJSON(r *hx.Rng, kind string) Case         { return genJSON(r, kind) }
+func CoqJSONAs(ctor string, c Case, o Obs) string { return coqJSONAs(ctor, c, o) }
